@@ -284,14 +284,6 @@ impl GraphInline {
                     .map(|inline| inline.normalize(context))
                     .collect(),
             ),
-            GraphInline::Image(url, title, inlines) => GraphInline::Image(
-                url.clone(),
-                title.clone(),
-                inlines
-                    .iter()
-                    .map(|inline| inline.normalize(context))
-                    .collect(),
-            ),
             GraphInline::Link(url, title, link_type, inlines) => {
                 if self.is_ref() {
                     let new_inlines = match *link_type {
